@@ -18,6 +18,17 @@ fn layout_container(attrs: &[String], salt: &str) -> String {
     let pinned: Vec<String> = attrs.iter().filter(|a| is_structural(a)).cloned().collect();
     let rest: Vec<String> = attrs.iter().filter(|a| !is_structural(a)).cloned().collect();
     let mut out = String::new();
+    let mut rng = crate::rng::Rng::new(crate::rng::mix(crate::rng::hash_str(salt), 0xC0A7, 0));
+    if rng.chance(1, 2) && !pinned.is_empty() && !rest.is_empty() {
+        // everything in one attribute (the silent ones after the structural ones, in a seeded order)
+        let mut all = pinned.clone();
+        let mut r = rest.clone();
+        rng.shuffle(&mut r);
+        all.extend(r);
+        let _ = writeln!(out, "#[deserr({}{})]", all.join(", "), if rng.chance(1, 3) { "," } else { "" });
+        out.push_str(&layout(&[], salt, ""));
+        return out;
+    }
     if !pinned.is_empty() {
         let _ = writeln!(out, "#[deserr({})]", pinned.join(", "));
     }
@@ -63,7 +74,8 @@ fn layout(attrs: &[String], salt: &str, indent: &str) -> String {
     }
     match rng.below(4) {
         0 | 1 => {
-            let _ = writeln!(out, "{indent}#[deserr({})]", a.join(", "));
+            // a trailing comma after the last item is legal
+            let _ = writeln!(out, "{indent}#[deserr({}{})]", a.join(", "), if rng.chance(1, 3) { "," } else { "" });
         }
         2 => {
             for x in &a {
